@@ -428,6 +428,15 @@ def gen_cfg(rng):
     return loc + assumed + (1 if rng.random() < 0.15 else 0,)
 
 
+def off_str(h, mi):
+    return "%s%02d:%02d" % ("-" if (h < 0 or mi < 0) else "+", abs(h), abs(mi))
+
+
+def cfg_words(c):
+    return "local zone %s, assumed %s%s" % (off_str(c[0], c[1]), "none" if c[2] is None else off_str(c[2], c[3]),
+                                           ", default-to-unknown" if c[4] else "")
+
+
 def cfg_str(c):
     return "%d %d %s %s %d" % (c[0], c[1], "_" if c[2] is None else c[2], "_" if c[3] is None else c[3], c[4])
 
@@ -518,7 +527,7 @@ class Strftime(Op):
     shard = None
 
     def gen(self, rng, tier, boost):
-        n = (6000 if tier == "quick" else 60000) * boost
+        n = (6000 if tier == "quick" else 600000) * boost
         if self.shard:
             n = n // self.shard[1] + 1
         for _ in range(n):
@@ -603,7 +612,7 @@ class Strptime(Op):
     shard = None
 
     def gen(self, rng, tier, boost):
-        n = (6000 if tier == "quick" else 60000) * boost
+        n = (6000 if tier == "quick" else 600000) * boost
         if self.shard:
             n = n // self.shard[1] + 1
         for _ in range(n):
@@ -621,8 +630,20 @@ class Strptime(Op):
             if any(ch not in SUPPORTED for ch in directives(fmt)):
                 data = "".join(rng.choice("0123456789-:") for _ in range(rng.randint(0, 12)))
             else:
-                data = self.mutate(rng, posix(fmt, self.perturb(rng, m, civ)))
+                clean = posix(fmt, self.perturb(rng, m, civ))
+                data = self.mutate(rng, clean)
+                if unixy and not self.unix_bounded(fmt, data):
+                    data = clean
             yield (m, c, data, fmt)
+
+    @staticmethod
+    def unix_bounded(fmt, data):
+        """The cost of %s is linear in the days spanned (C09's finding F10): keep |n| below 4e11 s."""
+        got = read_fields(fmt, data)
+        if not got or "unix" not in got:
+            return True
+        mt = re.match(r"-?([0-9]+)", got["unix"])
+        return mt is None or int(mt.group(1)) <= 4 * 10 ** 11
 
     @staticmethod
     def perturb(rng, m, civ):
@@ -678,9 +699,7 @@ class Strptime(Op):
 
     def oracle(self, a, out):
         m, c, data, fmt = a
-        what = "strptime(%r, %r) in %s (local zone %+d:%02d, assumed %s%s)" % (
-            data, fmt, m, c[0], abs(c[1]), "none" if c[2] is None else "%+d:%02d" % (c[2], abs(c[3])),
-            ", default-to-unknown" if c[4] else "")
+        what = "strptime(%r, %r) in %s (%s)" % (data, fmt, m, cfg_words(c))
         if out.startswith("EXC:"):
             return "%s raised %s, which is not a ValueError" % (what, out[4:])
         kind, want = expected_parse(m, (c[0], c[1]), None if c[2] is None else (c[2], c[3]), c[4], fmt, data)
@@ -728,8 +747,8 @@ class RoundTrip(Op):
     shard = None
 
     def gen(self, rng, tier, boost):
-        n = (6000 if tier == "quick" else 60000) * boost
-        nunix = (400 if tier == "quick" else 4000) * boost
+        n = (6000 if tier == "quick" else 600000) * boost
+        nunix = (400 if tier == "quick" else 24000) * boost
         if self.shard:
             n = n // self.shard[1] + 1
             nunix = nunix // self.shard[1] + 1
@@ -760,9 +779,7 @@ class RoundTrip(Op):
 
     def oracle(self, a, out):
         m, c, t, fmt = a
-        what = "%s dumped and read back with %r in %s (local zone %+d:%02d, assumed %s)" % (
-            T.describe_tp(t), fmt, m, c[0], abs(c[1]),
-            "none" if c[2] is None else "%+d:%02d" % (c[2], abs(c[3])))
+        what = "%s dumped and read back with %r in %s (%s)" % (T.describe_tp(t), fmt, m, cfg_words(c))
         if "EXC:" in out:
             return "%s raised %s, which is not a ValueError" % (what, out)
         civ = civil(m, t)
@@ -786,9 +803,9 @@ class RoundTrip(Op):
                 return "%s: %r read back as %s, a different instant (off by %d s)" % (
                     what, text, T.describe_tp(r), T.inst(m, r) - T.inst(m, t))
             if cls == "determined" and (r[7], r[8]) != (t[7], t[8]):
-                return "%s: %r read back with offset %d:%d" % (what, text, r[7], r[8])
+                return "%s: %r read back with offset %s" % (what, text, off_str(r[7], r[8]))
             if cls == "unix-only" and (r[7], r[8]) != (c[0], c[1]):
-                return "%s: %r read back in offset %d:%d, not the local zone" % (what, text, r[7], r[8])
+                return "%s: %r read back in offset %s, not the local zone" % (what, text, off_str(r[7], r[8]))
             return None
         if cls == "unix-mixed":
             if not back.startswith("ok "):
